@@ -34,8 +34,12 @@ def log(*a):
 
 
 def sh(cmd, cwd=None, env=None, timeout=None, stdin=None):
-    p = subprocess.run(cmd, cwd=cwd, env=env, stdout=subprocess.PIPE, stderr=subprocess.STDOUT,
-                       timeout=timeout, stdin=stdin)
+    try:
+        p = subprocess.run(cmd, cwd=cwd, env=env, stdout=subprocess.PIPE, stderr=subprocess.STDOUT,
+                           timeout=timeout, stdin=stdin)
+    except subprocess.TimeoutExpired as e:
+        out = (e.stdout or b"").decode("utf-8", "replace")
+        return 124, out + "\n(timed out after %ss)\n" % timeout
     return p.returncode, p.stdout.decode("utf-8", "replace")
 
 
@@ -217,6 +221,13 @@ def run_oracle(stream, seed, n, tier, tag, infile=None):
     fails = [l for l in out.splitlines() if l.startswith("ORACLE-FAIL")]
     m = re.search(r"oracle cases=(\d+)", out)
     return fails, (int(m.group(1)) if m else 0), out
+
+
+def search_n(cfg, oracle, tier):
+    """Cases for an oracle run inside the violation search: several times its normal sample, within what a slow
+    oracle (real sockets, sleeps, fake-clock minutes) can do in a few minutes."""
+    base = cfg.get("oracle_n_by", {}).get(oracle, cfg.get("oracle_n", {})).get(tier, 4000 if tier == "quick" else 100000)
+    return max(20, min(20000 if tier == "quick" else 200000, 4 * base))
 
 
 def ddmin_prefix(stream, lines, bad_index, tag, budget=60, keep_first=False):
@@ -545,14 +556,14 @@ def search(prop, cfg, failures, seed, tier, tag, known, known_hits):
                 m = re.search(r"op=(.*?) model=", f["detail"])
                 if m:
                     fo.write(m.group(1) + "\n")
-        of, ncases, oout = run_oracle(stream, seed, 20000 if tier == "quick" else 200000, tier, tag, infile)
+        of, ncases, oout = run_oracle(stream, seed, search_n(cfg, stream, tier), tier, tag, infile)
         of = [l for l in of if not match_known(known, prop, l) and not (re.match(r"ORACLE-FAIL (C\d\d) ", l) and re.match(r"ORACLE-FAIL (C\d\d) ", l).group(1) != prop)]
         targeted[stream] = (of, "oracle cases=%d unlisted-fails=%d" % (ncases, len(of)))
     # if a proof obligation or the tie itself broke, every oracle of the property is run wider
     wide = []
     if any(f["kind"] in ("obligation", "tie") for f in live):
         for os_ in cfg.get("oracles", []):
-            of, ncases, oout = run_oracle(os_, seed + 1000, 20000 if tier == "quick" else 200000, tier, tag, None)
+            of, ncases, oout = run_oracle(os_, seed + 1000, search_n(cfg, os_, tier), tier, tag, None)
             wide += [l for l in of if not match_known(known, prop, l) and not (re.match(r"ORACLE-FAIL (C\d\d) ", l) and re.match(r"ORACLE-FAIL (C\d\d) ", l).group(1) != prop)]
     live_oracle = [f["detail"] for f in live if f["kind"] == "oracle"]
     reported = set()
